@@ -218,6 +218,36 @@ pub fn c10(a: &Args) {
             Err(p) => out.ev(&json!({"ev":"cells","src":"font-psf2","what":format!("glyphs={n}"),"r":"panic","site":panic_site(&p),"codes":[]})),
         }
     }
+    // (2a) fonts that carry their own code-point table (PSF1 mode bits 0x02 / 0x04, PSF2 flag 1): table entries at every boundary of
+    //      the scalar range - a loader that maps glyphs by these values must validate them like any other character
+    for mode in [2u8, 3, 4, 6] {
+        for &bv in &[0x0041u32, 0xD7FF, 0xD800, 0xDBFF, 0xDC00, 0xDFFF, 0xE000, 0xFFFD, 0xFFFE] {
+            for at in [0usize, 5, 255] {
+                let n = if mode & 1 == 1 { 512usize } else { 256 };
+                let mut d = vec![0x36u8, 0x04, mode, 8];
+                d.extend(std::iter::repeat(0x3Cu8).take(n * 8));
+                for i in 0..n {
+                    d.extend(((0x100 + i) as u16).to_le_bytes());
+                    if i == at { d.extend((bv as u16).to_le_bytes()); }
+                    if mode & 4 != 0 && i == at { d.extend(0xFFFEu16.to_le_bytes()); d.extend((bv as u16).to_le_bytes()); d.extend(0x0301u16.to_le_bytes()); }
+                    d.extend(0xFFFFu16.to_le_bytes());
+                }
+                let what = format!("psf1-table:mode={mode}:value={bv:#x}:at={at}");
+                if !u.begin(&mut out, "font-table", &what) { continue; }
+                let r = guard(|| BitFont::from_bytes("tab.psf", &d));
+                match r {
+                    Ok(Ok(f)) => {
+                        let mut codes: Vec<u32> = f.glyphs.keys().map(|c| *c as u32).collect();
+                        codes.sort_unstable();
+                        let keep: Vec<u32> = codes.iter().copied().filter(|c| *c >= 0xD000 || *c % 64 == 0).collect();
+                        out.ev(&json!({"ev":"cells","src":"font-table","what":what,"r":"ok","n":codes.len(),"codes":keep}));
+                    }
+                    Ok(Err(_)) => out.ev(&json!({"ev":"cells","src":"font-table","what":what,"r":"err","codes":[]})),
+                    Err(p) => out.ev(&json!({"ev":"cells","src":"font-table","what":what,"r":"panic","site":panic_site(&p),"codes":[]})),
+                }
+            }
+        }
+    }
     // (2b) glyph tables where the number of glyph slices differs from the DECLARED count: PSF2 with glyph size > height (the
     //      data is cut by height), PSF1 (256 / 512 declared) followed by more data than its glyphs need
     {
